@@ -159,6 +159,45 @@ pub fn register(l: &mut Vec<Obl>) {
             let (p, q2) = (LinSrgb::<T>::new(v[0] * T::k(0.01), v[0] * T::k(0.01), v[2] * T::k(0.01)), LinSrgb::<T>::new(v[2] * T::k(0.01), v[2] * T::k(0.01), v[0] * T::k(0.01)));
             [x.delta_e(y), x.improved_delta_e(y), x.hybrid_distance(y), p.relative_contrast(q2)]
         });
+    obl!(l; "c07_xyz_to_cam16", "C07", t,
+        "XYZ -> CAM16 (default viewing conditions D65, L_A = 40, Y_b = 20, average surround) for every XYZ colour of the documented range whose three CAT16 cone responses are non-negative (all real colours; see the known finding for the rest): every division, square root and power the code executes is defined",
+        ["Cam16::from_xyz", "cam16::math::xyz_to_cam16", "cam16::math::DependentParameters::adapt"],
+        [var("x", 0.0, 0.95047), var("y", 0.0, 1.0), var("z", 0.0, 1.08883)];
+        |v| {
+            let mut r = Res::<B>::new();
+            // M16 of Li et al. 2017 (the harness's own copy; only the sign of the responses matters here)
+            for row in [[0.401288, 0.650173, -0.051461], [-0.250268, 1.204414, 0.045854], [-0.002079, 0.048952, 0.953127]] {
+                r.assume(T::k(0.0).le(T::k(row[0]) * v[0] + T::k(row[1]) * v[1] + T::k(row[2]) * v[2]));
+            }
+            let p = palette::cam16::Parameters::<palette::cam16::StaticWp<wp::D65>, <T as palette::num::FromScalar>::Scalar>::default_static_wp(40.0).bake();
+            let c = palette::cam16::Cam16::<T>::from_xyz(Xyz::<wp::D65, T>::new(v[0], v[1], v[2]), p);
+            r.goal("finite", fin(&[c.lightness, c.chroma, c.hue.into_inner(), c.brightness, c.colorfulness, c.saturation]));
+            r
+        });
+    obl!(l; "c07_xyz_to_cam16_adaptation_whole_box", "C07", q,
+        "XYZ -> CAM16 over the whole documented XYZ box, colours with a negative CAT16 cone response included: the six partial operations of the post-adaptation compression (three powers |x|^0.42, three divisions by it + 27.13) are defined",
+        ["cam16::math::xyz_to_cam16", "cam16::math::DependentParameters::adapt"],
+        [var("x", 0.0, 0.95047), var("y", 0.0, 1.0), var("z", 0.0, 1.08883)];
+        |v| {
+            let mut r = Res::<B>::new();
+            let p = palette::cam16::Parameters::<palette::cam16::StaticWp<wp::D65>, <T as palette::num::FromScalar>::Scalar>::default_static_wp(40.0).bake();
+            let c = palette::cam16::Cam16::<T>::from_xyz(Xyz::<wp::D65, T>::new(v[0], v[1], v[2]), p);
+            r.goal("finite", fin(&[c.lightness, c.chroma, c.hue.into_inner(), c.brightness, c.colorfulness, c.saturation]));
+            r.goal("scope_ops_1_6", B::k(true));
+            r
+        });
+    obl!(l; "c07_xyz_to_cam16_whole_box", "C07", q,
+        "XYZ -> CAM16 over the whole documented XYZ box: the lightness power J = 100 (A/A_w)^(c z) has a non-negative base (witness of the known finding: the achromatic response A is negative for colours with a negative cone response, e.g. XYZ = (0, 0, 0.0002))",
+        ["Cam16::from_xyz", "cam16::math::xyz_to_cam16"],
+        [var("x", 0.0, 0.95047), var("y", 0.0, 1.0), var("z", 0.0, 1.08883)];
+        |v| {
+            let mut r = Res::<B>::new();
+            let p = palette::cam16::Parameters::<palette::cam16::StaticWp<wp::D65>, <T as palette::num::FromScalar>::Scalar>::default_static_wp(40.0).bake();
+            let c = palette::cam16::Cam16::<T>::from_xyz(Xyz::<wp::D65, T>::new(v[0], v[1], v[2]), p);
+            r.goal("finite", fin(&[c.lightness, c.chroma, c.hue.into_inner(), c.brightness, c.colorfulness, c.saturation]));
+            r.goal("scope_ops_7_7", B::k(true));
+            r
+        });
     c07!(obl, l, "ciede2000", t, "CIEDE2000 on every pair of Lab colours of the documented box (achromatic pairs included)", ["color_difference::get_ciede2000_difference"],
         [var("l1", 0.0, 100.0), var("a1", -128.0, 127.0), var("b1", -128.0, 127.0), var("l2", 0.0, 100.0), var("a2", -128.0, 127.0), var("b2", -128.0, 127.0)], |v| {
             [Lab::<wp::D65, T>::new(v[0], v[1], v[2]).difference(Lab::<wp::D65, T>::new(v[3], v[4], v[5]))]
